@@ -438,6 +438,10 @@ func (interp *Interpreter) ast(f ast.Node) (string, *node, error) {
 	var st nodestack
 	pkgName := "main"
 
+	if file, ok := f.(*ast.File); ok {
+		splitVarSpecs(file)
+	}
+
 	addChild := func(root **node, anc astNode, pos token.Pos, kind nkind, act action) *node {
 		var i interface{}
 		nindex := atomic.AddInt64(&interp.nindex, 1)
@@ -940,6 +944,32 @@ func (interp *Interpreter) ast(f ast.Node) (string, *node, error) {
 
 	interp.roots = append(interp.roots, root)
 	return pkgName, root, err
+}
+
+// splitVarSpecs rewrites every package level declaration 'var a, b = x, y' into
+// 'var (a = x; b = y)': each variable has its own initialization expression and
+// takes part separately in the package initialization order.
+func splitVarSpecs(file *ast.File) {
+	for _, d := range file.Decls {
+		gd, ok := d.(*ast.GenDecl)
+		if !ok || gd.Tok != token.VAR {
+			continue
+		}
+		var specs []ast.Spec
+		for _, s := range gd.Specs {
+			vs, ok := s.(*ast.ValueSpec)
+			if !ok || len(vs.Names) < 2 || len(vs.Names) != len(vs.Values) {
+				specs = append(specs, s)
+				continue
+			}
+			for i := range vs.Names {
+				specs = append(specs, &ast.ValueSpec{Doc: vs.Doc, Names: vs.Names[i : i+1], Type: vs.Type, Values: vs.Values[i : i+1], Comment: vs.Comment})
+			}
+		}
+		if len(specs) > len(gd.Specs) {
+			gd.Specs = specs
+		}
+	}
 }
 
 type astNode struct {
